@@ -130,6 +130,9 @@ impl<'a> Tape<'a> {
     }
 }
 
+/// bound on the product of block counts per rule (see RuleGen::fanout)
+const MAX_FANOUT: usize = 8;
+
 const TYPE_NAMES: &[&str] = &["A", "B", "C", "D", "El", "Node", "Obj", "Sort"];
 const ENUM_NAMES: &[&str] = &["E", "Shape", "Tree", "Opt"];
 const CTOR_NAMES: &[&str] = &["Ka", "Kb", "Kc", "Leaf", "Fork", "Nil", "Cons", "Unit", "Wrap", "Pair"];
@@ -159,6 +162,10 @@ struct RuleGen<'a, 'b> {
     prof: &'a Profile,
     t: &'a mut Tape<'b>,
     vars: Vec<VarInfo>,
+    /// product of the block counts of all branch/match statements generated so far: statements
+    /// after a branch are continued once per block, so the number of flat rules (and the size of
+    /// the generated code) grows with this product
+    fanout: usize,
 }
 
 impl<'a, 'b> RuleGen<'a, 'b> {
@@ -532,8 +539,8 @@ impl<'a, 'b> RuleGen<'a, 'b> {
             let w = [
                 if then_bias >= 30 { 2 } else { 6 },
                 then_bias,
-                if self.prof.branches && depth < 2 { 1 } else { 0 },
-                if self.prof.matches && depth < 2 && !enum_vars.is_empty() { 2 } else { 0 },
+                if self.prof.branches && depth < 2 && self.fanout * 2 <= MAX_FANOUT { 1 } else { 0 },
+                if self.prof.matches && depth < 2 && !enum_vars.is_empty() && self.fanout * 2 <= MAX_FANOUT { 2 } else { 0 },
             ];
             match self.t.weighted(&w) {
                 0 => {
@@ -550,7 +557,8 @@ impl<'a, 'b> RuleGen<'a, 'b> {
                     }
                 }
                 2 => {
-                    let nb = 1 + self.t.pick(3);
+                    let nb = 1 + self.t.pick(3.min(MAX_FANOUT / self.fanout));
+                    self.fanout *= nb;
                     let mut blocks = Vec::new();
                     for _ in 0..nb {
                         let mut c = ctx.clone();
@@ -559,8 +567,17 @@ impl<'a, 'b> RuleGen<'a, 'b> {
                     out.push(Stmt::Branch(blocks));
                 }
                 _ => {
-                    let v = enum_vars[self.t.pick(enum_vars.len())];
+                    // only enums whose constructor count fits the fan-out budget
+                    let fit: Vec<usize> = enum_vars.iter().copied().filter(|&v| self.fanout * self.p.ctors(self.vars[v].ty).len().max(1) <= MAX_FANOUT).collect();
+                    if fit.is_empty() {
+                        if let Some(a) = self.if_atom(ctx) {
+                            out.push(Stmt::If(a));
+                        }
+                        continue;
+                    }
+                    let v = fit[self.t.pick(fit.len())];
                     let ety = self.vars[v].ty;
+                    self.fanout *= self.p.ctors(ety).len().max(1);
                     let disc = self.use_var(v);
                     let mut ctors: Vec<RelId> = self.p.ctors(ety).to_vec();
                     // random case order
@@ -736,7 +753,7 @@ pub fn gen_program(tape: &[u16], prof: &Profile) -> Program {
     for name in rule_names {
         let name = if t.chance(1, 3) { None } else { Some(name) };
         let body = {
-            let mut g = RuleGen { p: &p, prof, t: &mut t, vars: Vec::new() };
+            let mut g = RuleGen { p: &p, prof, t: &mut t, vars: Vec::new(), fanout: 1 };
             let mut ctx = Ctx::default();
             g.block(&mut ctx, 0, prof.max_stmts)
         };
